@@ -251,11 +251,37 @@ def run_impl(c):
             return ["ok", bool(ok), [[int(a), int(b)] for a, b in np.asarray(bad).tolist()]]
         if k == "data":
             g, s, e, l, t = c["cfg"]
-            validate_data(build_geff(c), ValidationConfig(graph=g, sphere=s, ellipsoid=e, lineage=l, tracklet=t))
-            return ["ok"]
+            cfg = ValidationConfig(graph=g, sphere=s, ellipsoid=e, lineage=l, tracklet=t)
+            mem = build_geff(c)
+            via = via_store(mem, cfg)
+            try:
+                validate_data(mem, cfg)
+                return ["ok", "", via]
+            except Exception as ex:
+                return ["err", exn_name(ex), via]
     except Exception as ex:
         return ["err", exn_name(ex)]
     raise ValueError(k)
+
+
+def via_store(mem, cfg):
+    """the same validation as users reach it: read_to_memory(store, data_validation=cfg) on the stored graph
+    (None when the graph cannot be stored / read structurally: nothing to compare)"""
+    from zarr.storage import MemoryStore
+
+    from geff.core_io import read_to_memory, write_arrays
+
+    st = MemoryStore()
+    try:
+        write_arrays(st, mem["node_ids"], mem["node_props"], mem["edge_ids"], mem["edge_props"], mem["metadata"], structure_validation=False)
+        read_to_memory(st)
+    except Exception:
+        return None
+    try:
+        read_to_memory(st, data_validation=cfg)
+        return "ok"
+    except Exception as ex:
+        return exn_name(ex)
 
 
 # ---------------------------------------------------------------- Coq terms
@@ -392,6 +418,9 @@ def oracle(c, o):
         if o[0] == "ok" and must_fail:
             return Failure(c, o, f"validate_data accepts although {must_fail}", {"kind": "data", "why": "accepts:" + must_fail[0].split(":")[0],
                                                                                   "directed": c["directed"]})
+        if len(o) > 2 and o[2] is not None and o[2] != ("ok" if o[0] == "ok" else o[1]):
+            return Failure(c, o, f"read_to_memory(store, data_validation=cfg) gives {o[2]} but validate_data on the same graph gives "
+                           f"{o[0] if o[0] == 'ok' else o[1]}", {"kind": "data", "why": "wiring-read"})
         if o[0] == "err":
             if o[1] != "ValueError":
                 return Failure(c, o, f"validate_data raised {o[1]}", {"kind": "data", "why": "exception-class"})
